@@ -29,6 +29,10 @@ def jobs(tier, pid="C07"):
                 job("aliases", 4 if q else 5, [1, 2], ["alias", "typedecl"], names=(1, 2), types=(1, 2)),
                 # position() of parameters, enumerators, bases and exception parameters (C02 names position() among the read-backs)
                 job("positions", 4 if q else 5, [3, 4, 5, 6], ["param", "enumerator", "base", "ehparam"], names=(1, 2, 3), types=(1, 2))]
+    if pid == "C09":
+        # the type of a scope is the product of its current elements' types, after every addition: every kind of scope
+        return [job("var-fun", 4 if q else 5, [1], ["var", "fundecl"]),
+                job("homogeneous", 4 if q else 5, [3, 4, 5, 6], ["param", "enumerator", "base", "ehparam"], names=(1, 2, 3), types=(1, 2))]
     return [
         job("var-fun", 5, [1], ["var", "fundecl"]),
         job("kinds", 4, [2], ["var", "field", "bitfield", "typedecl", "alias", "ptemplate", "stemplate"],
@@ -51,7 +55,7 @@ def run(pid, tier, seed):
     # many names in one scope entered in an order unrelated to their creation (the name-keyed lookup tree of a scope rebalances
     # many times), and many types under few names (the type-keyed chain of an overload set does)
     wide = []
-    for tag, wn, wt in (("names", 40, 2), ("types", 3, 10)):
+    for tag, wn, wt in ((("names", 40, 2), ("types", 3, 10)) if pid not in ("C02", "C09") else ()):
         wp = os.path.join(tdir, "%s-%s-%d-%s.ndjson" % (pid, tier, seed, tag))
         vlib.record_trace(exe, ["record", "--seed", seed + 17, "--runs", 3 if q else 10, "--len", 170 if q else 300,
                                 "--names", wn, "--types", wt], wp, timeout=300)
@@ -98,7 +102,13 @@ def run(pid, tier, seed):
         for f in r["fails"]:
             part = f["key"].split(":")[1]
             # read-back of what a declaration was given (name, type, aliasee) is C02's; its place in the scope is C07's
-            if (part not in ("init", "n", "t", "spec", "pos")) if pid == "C02" else (part in ("init", "spec")):
+            if pid == "C09":
+                skip = part not in ("types", "elements")
+            elif pid == "C02":
+                skip = part not in ("init", "n", "t", "spec", "pos")
+            else:
+                skip = part in ("init", "spec")
+            if skip:
                 foreign += 1
                 continue
             if f["key"] in seen:
@@ -116,7 +126,7 @@ def run(pid, tier, seed):
             violations.append(("crash", "library crashed replaying a behaviour",
                                vlib.save_replay(pid, "crash-%s.ndjson" % r["name"], r["crash"]["beh"])))
     seenk = set()
-    for (lineno, line, prefix) in ([] if pid == "C02" else tr["rejections"]):
+    for (lineno, line, prefix) in ([] if pid in ("C02", "C09") else tr["rejections"]):
         try:
             ev = json.loads(line)
         except ValueError:
